@@ -708,32 +708,107 @@ def dual_check(ct, case, rec):
     """dual meshes (the generalisation of disconnect): every cell keeps its corner positions, with an offset the first
     `offset` rows of the point array are placeholders and the connectivity is shifted by it"""
     fem = import_felupe()
-    dim = 2 if ct in ("quad", "triangle") else 3
+    dim = 2 if ct in ("quad", "triangle", "quad8") else 3
     m = (fem.Rectangle if dim == 2 else fem.Cube)(b=tuple(case["size"][:dim]), n=tuple(case["n"][:dim]))
-    if ct in ("triangle", "tetra"):
+    if ct in ("triangle", "tetra", "tetra10"):
         m = m.triangulate()
+    if ct in ("quad8", "hexahedron20", "tetra10"):
+        m = m.add_midpoints_edges()
+    base_ct = {"quad8": "quad", "hexahedron20": "hexahedron", "tetra10": "tetra"}.get(ct, ct)
     P0, C0 = np.array(m.points), np.array(m.cells)
     off = case["offset"]
     kw = dict(disconnect=case["disconnect"], calc_points=True, offset=off)
+    if case["ppc"] == "vertices" and case["disconnect"]:
+        # documented points_per_cell (<= number of points per cell): the dual cells keep the first k points of each cell - here
+        # the vertices (connected duals with fewer points per cell are used for the dual fields only and carry no geometry)
+        kw["points_per_cell"] = NVERT[base_ct]
+        C0 = C0[:, : NVERT[base_ct]]
+        rec.label("points_per_cell=vertices")
     d = m.dual(**kw)
     P, C = np.array(d.points, float), np.array(d.cells)
+    C0ref = np.array(m.cells)
     rec.nontrivial = off > 0
-    rec.require("input-mesh-unchanged", np.array_equal(np.array(m.cells), C0) and np.array_equal(np.array(m.points), P0))
+    rec.require("input-mesh-unchanged", np.array_equal(np.array(m.cells), C0ref) and np.array_equal(np.array(m.points), P0))
     rec.require("cells-shape", C.shape == C0.shape, [C.shape, C0.shape])
     if C.shape != C0.shape or C.max() >= len(P):
         rec.require("cells-index-points", C.shape == C0.shape and C.max() < len(P), [int(C.max()), len(P)])
         return
     rec.require("offset-shifts-connectivity", int(C.min()) >= off, [int(C.min()), off])
     rec.close("cell-corner-positions", float(np.abs(P[C] - P0[C0]).max()), 0.0, {"offset": off, "disconnect": case["disconnect"]})
-    vol = volumes(P, C, d.cell_type)
+    vol = volumes(P, C, base_ct if C.shape[1] == NVERT[base_ct] else m.cell_type)
     rec.close("covered-volume", abs(vol.sum() - float(np.prod(case["size"][:dim]))) / float(np.prod(case["size"][:dim])), 1e-12)
     rec.close("orientation", max(0.0, float(-vol.min())), 0.0)
     if case["disconnect"]:
         rec.require("disconnected:one-point-per-cell-corner", len(P) == off + C.size and len(np.unique(C)) == C.size, [len(P), off + C.size])
 
 
+def smid_strategy(ct, tier):
+    return st.fixed_dictionaries({"n": st.lists(st.integers(2, 3), min_size=3, max_size=3), "size": st.lists(fl(0.5, 2), min_size=3, max_size=3),
+                                  "jseed": st.integers(0, 2**16), "jitter": st.sampled_from([0.0, 0.15]), "how": st.sampled_from(["convert", "add"]), "volumes": st.booleans()})
+
+
+def smid_check(ct, case, rec):
+    """mid-face / mid-volume points of simplex meshes (intermediate cell types without an element template): every inserted
+    point is the centroid of the edge, face or cell it belongs to - edges per slot, faces as a set per cell"""
+    import itertools
+
+    fem = import_felupe()
+    dim = 2 if ct == "triangle" else 3
+    m = (fem.Rectangle if dim == 2 else fem.Cube)(b=tuple(case["size"][:dim]), n=tuple(case["n"][:dim]))
+    X = np.array(m.points)
+    if case["jitter"]:
+        lo, hi = X.min(0), X.max(0)
+        inner = ~np.any((np.abs(X - lo) < 1e-12) | (np.abs(X - hi) < 1e-12), axis=1)
+        h = float(np.min((hi - lo) / (np.array(case["n"][:dim]) - 1)))
+        X[inner] += case["jitter"] * h * np.random.default_rng(case["jseed"]).uniform(-1, 1, (int(inner.sum()), dim))
+        m.update(points=X)
+    m = m.triangulate()
+    P0, C0 = np.array(m.points, float), np.array(m.cells)
+    nv = dim + 1
+    vols = case["volumes"] and dim == 3
+    if case["how"] == "convert":
+        m2 = m.convert(order=2, calc_midfaces=True, calc_midvolumes=vols)
+    else:
+        m2 = m.add_midpoints_edges().add_midpoints_faces()
+        if vols:
+            m2 = m2.add_midpoints_volumes()
+    P, C = np.array(m2.points, float), np.array(m2.cells)
+    edges = list(itertools.combinations(range(nv), 2))
+    faces = [tuple(range(3))] if dim == 2 else list(itertools.combinations(range(4), 3))
+    ncol = nv + len(edges) + len(faces) + (1 if vols else 0)
+    rec.nontrivial = len(C0) >= 2
+    if not rec.require("simplex-midpoints:shape", C.shape == (len(C0), ncol), [C.shape, (len(C0), ncol)]):
+        return
+    rec.require("simplex-midpoints:vertices-kept", np.array_equal(C[:, :nv], C0) and np.array_equal(P[: len(P0)], P0))
+    V = P[C[:, :nv]]  # (cells, vertices, dim)
+    sc = float(np.ptp(P0, axis=0).max())
+
+    def as_set(A):
+        return [sorted(map(tuple, np.round(a / sc, 9).tolist())) for a in A]
+
+    e_got = P[C[:, nv : nv + len(edges)]]
+    e_ref = np.stack([(V[:, a] + V[:, b]) / 2 for a, b in edges], 1)
+    rec.require("simplex-midpoints:edge-points-are-the-edge-centroids", as_set(e_got) == as_set(e_ref))
+    f_got = P[C[:, nv + len(edges) : nv + len(edges) + len(faces)]]
+    f_ref = np.stack([V[:, list(f)].mean(1) for f in faces], 1)
+    rec.require("simplex-midpoints:face-points-are-the-face-centroids", as_set(f_got) == as_set(f_ref), {"cell0": [f_got[0].tolist(), f_ref[0].tolist()]})
+    if vols:
+        rec.close("simplex-midpoints:cell-point-is-the-cell-centroid", float(np.abs(P[C[:, -1]] - V.mean(1)).max()) / sc, 1e-12)
+    ents = set()
+    for c in C0.tolist():
+        for a, b in edges:
+            ents.add(tuple(sorted((c[a], c[b]))))
+        for f in faces:
+            ents.add(tuple(sorted(c[i] for i in f)))
+        if vols:
+            ents.add(tuple(sorted(c)))
+    rec.require("simplex-midpoints:one-point-per-entity", len(P) == len(P0) + len(ents), [len(P), len(P0) + len(ents)])
+    rec.require("simplex-midpoints:no-unused", len(m2.points_without_cells) == 0)
+
+
 FAMILIES = [
-    Family("dual", ["quad", "hexahedron", "triangle", "tetra"], dual_check, strategy=dual_strategy, n={"quick": 8, "thorough": 150}, chunk=8),
+    Family("simplex-midpoints", ["triangle", "tetra"], smid_check, strategy=smid_strategy, n={"quick": 8, "thorough": 200}, chunk=8),
+    Family("dual", ["quad", "hexahedron", "triangle", "tetra", "quad8", "hexahedron20", "tetra10"], dual_check, strategy=dual_strategy, n={"quick": 8, "thorough": 150}, chunk=8),
     Family("merge-tolerance", [-1, 0, 1, 2, 4], mtol_check, strategy=mtol_strategy, n={"quick": 8, "thorough": 200}, chunk=8),
     Family("revolve-side", REV_AXIS, rev_check, strategy=rev_strategy, n={"quick": 6, "thorough": 200}, chunk=6),
     Family("generators", GENS, gen_check, strategy=gen_strategy, n={"quick": 30, "thorough": 600}, chunk=100),
